@@ -17,6 +17,7 @@ type simProp struct {
 	Lim              core.Limits
 	Rule             string
 	MaxPlain, MaxRel int
+	MinRel           int
 	// Setup may adjust generator and sim before the history starts.
 	Setup func(rt *rapid.T, sim *core.Sim, g *core.Gen)
 	// Observe is called after every applied op; it labels the case and decides non-triviality.
@@ -101,7 +102,7 @@ func runSimProp(t *testing.T, p *simProp) {
 			p.MaxPlain = 6
 		}
 		rapid.Check(t, func(rt *rapid.T) {
-			u := core.GenUniverse(rt, p.MaxPlain, p.MaxRel)
+			u := core.GenUniverse(rt, p.MaxPlain, p.MinRel, p.MaxRel)
 			cs := st.Begin()
 			defer cs.End()
 			labelUniverse(cs, u)
